@@ -21,6 +21,12 @@ def observedCallsCompositeKey : List Call :=
    { nodes := ["rating-predictor"], inputs := [("items", Arg.testItems), ("query", Arg.user)] },
    { nodes := ["scorer"], inputs := [("items", Arg.testItems), ("query", Arg.user)] }]
 
+/-- …for a user whose test list is empty -/
+def observedCallsEmptyTest : List Call :=
+  [{ nodes := ["recommender"], inputs := [("n", Arg.int (0)), ("query", Arg.user)] },
+   { nodes := ["rating-predictor"], inputs := [("items", Arg.testItems), ("query", Arg.user)] },
+   { nodes := ["scorer"], inputs := [("items", Arg.testItems), ("query", Arg.user)] }]
+
 /-- …and for a key without a user -/
 def observedCallsNoUser : List Call :=
   [{ nodes := ["recommender"], inputs := [("n", Arg.int (0))] },
